@@ -7,7 +7,7 @@ ASSUMPTIONS = ['each shared access between two synchronisation calls is atomic (
 
 
 def main(tier, seed, replay=None):
-    ck, ok = CC.run_property("C10", tier, seed, replay, ['produce', 'produce', 'produce_raise', 'consume'], lambda s: s.startswith(('callback-items-differ', 'callback-endmarker', 'receive-after-setcallback', 'endmarker-never-delivered', 'multichannel-')), None, ASSUMPTIONS, extra=EXTRA)
+    ck, ok = CC.run_property("C10", tier, seed, replay, ['produce', 'produce', 'produce_raise', 'consume', 'callback_readopted'], lambda s: s.startswith(('callback-items-differ', 'callback-readopted', 'callback-endmarker', 'receive-after-setcallback', 'endmarker-never-delivered', 'multichannel-')), None, ASSUMPTIONS, extra=EXTRA)
     try:
         from props import chan_model
 
@@ -16,7 +16,7 @@ def main(tier, seed, replay=None):
         loss_during_replay(ck, tier, replay)
     except ImportError:
         pass
-    return ck.finish(rule='programs whose initiator side installs a callback with endmarker before, between and after the arrival of the items and of the close (early and late setcallback), ending by normal end of the remote_exec or by a remote error; random/PCT schedules with line-level preemption.')
+    return ck.finish(rule='programs whose initiator side installs a callback with endmarker before, between and after the arrival of the items and of the close (early and late setcallback), ending by normal end of the remote_exec or by a remote error; conversations in which the channel object of the callback is dropped and the peer hands the channel back inside an item (a new object for the same id, kept or dropped) while more items follow; random/PCT schedules with line-level preemption.')
 
 
 def loss_during_replay(ck, tier, replay=None):
